@@ -57,6 +57,7 @@ def covers(domain, host):
 
 def plan(tier, seed):
     items = [{"kind": "pairs", "exhaustive": "every (domain form, first target, second target) over 10 domain forms x 16 x 16 hosts"}]
+    items.append({"kind": "aba", "exhaustive": "value A, value B, value A again for one name x 2 domain forms x 3 value pairs x entry created by this / another response x 2 x 2 targets"})
     items.append({"kind": "attrnames", "exhaustive": "a cookie named like an attribute (domain, Domain, path, version) on a later Set-Cookie line x 2 values x 2 domain forms x 4 second targets"})
     n = 8000 if tier == "quick" else 600000
     per = 250 if tier == "quick" else 2500
@@ -75,6 +76,17 @@ def expand(item, seed):
                     if h1.lower() != h2.lower() and (len(h1) + len(h2)) % 4 == 0:
                         yield {"steps": [{"host": h1, "set": [["a", "1"]], "domain": d, "cookie": None, "redirect_to": h2},
                                          {"host": h2, "set": [], "domain": None, "cookie": None}], "seed": 1}
+    elif item["kind"] == "aba":
+        # the same Set-Cookie line again after another value was set in between: the latest response wins, also when it is
+        # byte for byte the one that first created the domain's entry
+        for d in ("example.test", ".Example.Test"):
+            for v1, v2 in (("1", "2"), ("xyz", "v"), ('"two words"', "1")):
+                for h in ("example.test", "www.example.test"):
+                    for last in (h, "a.b.example.test"):
+                        st = lambda val: {"host": h, "set": [["sid", val]], "domain": d, "cookie": None}  # noqa: E731
+                        yield {"steps": [st(v1), st(v2), st(v1), {"host": last, "set": [], "domain": None, "cookie": "me=1"}], "seed": 1}
+                        yield {"steps": [{"host": h, "set": [["a", "1"]], "domain": d, "cookie": None}, st(v1), st(v2), st(v1),
+                                         {"host": last, "set": [], "domain": None, "cookie": None}], "seed": 1}
     elif item["kind"] == "attrnames":
         for nm in RESERVED:
             for val in ("other.test", "2"):
@@ -121,6 +133,10 @@ def gen(rng):
             # this step's server answers with a redirect (its own Set-Cookie lines ride on the 3xx) to another host
             st["redirect_to"] = rng.choice([h for h in HOSTS if h.lower() != host.lower()])
         steps.append(st)
+        if len(steps) >= 2 and rng.random() < 0.15 and len(steps) < 7:
+            # an earlier response comes again, byte for byte
+            import copy
+            steps.append(copy.deepcopy(rng.choice(steps[:-1])))
     return {"steps": steps, "seed": rng.randrange(1 << 30)}
 
 
@@ -128,7 +144,7 @@ def run(sc, choices=None):
     res = Result()
     try:
         steps = list(sc["steps"])
-        if not 1 <= len(steps) <= 8:
+        if not 1 <= len(steps) <= 14:
             raise InvalidScenario("steps")
         owner = {}
         for st in steps:
